@@ -135,6 +135,10 @@ def run(db, chk) -> None:
     obj_reads = [n for g_ in [f_in] + [x for x in H.with_private_callees(m, f) if x is not f] for n in ast.walk(g_) if isinstance(n, ast.Subscript) and lit(n.slice) == "object"]
     chk.ob("C09.R1-key-agreement", "critical edges are read back from the 'object' attribute written by _add_edge", (wkeys.get("object") == "edge") if obj_reads or wkeys.get("object") != "edge" else None, where,
            found={"written": wkeys.get("object"), "reads": len(obj_reads)}, accepted="object=edge ... self.edges[u, v]['object']")
+    frozen = [n for n in ast.walk(f_in) if isinstance(n, ast.Attribute) and n.attr == "weight" and isinstance(n.ctx, ast.Load) and not (isinstance(n.value, ast.Name) and n.value.id in ("self", "nx"))]
+    chk.ob("C09.R1-key-agreement", "critical_path consults no weight other than the graph attribute the search maximises (not the value frozen in a CPEdge object)", not frozen, where,
+           found=[" ".join(ast.unparse(m.parent.get(id(n), n)).split())[:100] for n in frozen] or "none", accepted="weights are read through the 'weight' edge attribute only",
+           why="a what-if re-weighting changes the graph attribute, not the CPEdge objects: a consistency check against e.weight raises (or filters) exactly when the documented re-weighting was used")
     # ---------------------------------------------------------------- R2 derivation of the sets
     ev = [val for t, val, s in H.assignments(f_in) if H.is_self_attr(t, "critical_path_events_set")]
     okev = len(ev) == 1 and isinstance(ev[0], ast.SetComp) and len(ev[0].generators) == 1 and isinstance(ev[0].generators[0].target, ast.Name) \
